@@ -112,7 +112,7 @@ static void life_case(uint64_t idx)
     if (storm) {
         /* many init/cleanup rounds on one handle: live-block count must return to zero each time */
         const vh_cipher *c = &vh_ciphers[vh_below(&r, CIPH_N)];
-        vh_obj ob; int k, par = (int)vh_below(&r, 2);
+        vh_obj ob; int k, par = (int)vh_below(&r, 2), base_live = am_live_blocks();   /* blocks leaked earlier in this case are reported by the log checker, not here */
         memset(&ob, 0, sizeof(ob)); ob.id = 50; ob.cap = (int)vh_below(&r, (uint32_t)maxbe[c->id] + 1);
         vh_set_crash_key("C15:init-cleanup-loop");
         for (k = 0; k < 400; ++k) {
@@ -121,12 +121,12 @@ static void life_case(uint64_t idx)
             vh_call_begin("init(loop)"); ret = par ? c->par_init(&ob.H) : c->ctr_init(&ob.H); vh_call_end();
             if (ret && !par && (k & 1)) { uint8_t key[16] = {1}; c->ctr_set_key(&ob.H, key, 16, 7); }
             vh_call_begin("cleanup(loop)"); if (par) c->par_cleanup(&ob.H); else c->ctr_cleanup(&ob.H); vh_call_end();
-            if (am_live_blocks() != 0) {
-                snprintf(d, sizeof(d), "{\"loop_iteration\":%d,\"live_blocks\":%d}", k, am_live_blocks());
+            if (am_live_blocks() != base_live) {
+                snprintf(d, sizeof(d), "{\"loop_iteration\":%d,\"live_blocks\":%d}", k, am_live_blocks() - base_live);
                 snprintf(nm, sizeof(nm), "C15:%s%s:%s:leak-in-init-cleanup-loop", c->name, par ? "-parallel" : "", vh_backend_names[ob.cap]);
                 viol(nm, idx, d); break;
             }
-            if (k % 100 == 99) { am_release_all(); am_hard_reset(); }
+            if (k % 100 == 99 && base_live == 0) { am_release_all(); am_hard_reset(); }
         }
         VH_COUNT("init_cleanup_loop_rounds", k);
     }
@@ -254,6 +254,7 @@ static void c16_case(uint64_t idx)
     unsigned nbe = (unsigned)maxbe[ci] + 1, be = (unsigned)((idx / 6) % 3), cls = (unsigned)((idx / 18) % 6);
     vh_handle A, B, live_copy; long nreq, k; int ret; char d[400], key[300], nm[120];
     uint8_t bkey[16], bctr[16], bin[64], z[64], ob1[64], ob2[64];
+    int c14 = !strcmp(prop, "C14");
     static const char *const cname[6] = {"zeroed", "all-0xFF", "all-0xA5", "random", "stale-live-handle(ctx->decoy)", "stale-cleaned-handle(ctx->PROT_NONE)"};
     vh_rng_seed(&r, vh_seed, 0x16, idx);
     snprintf(d, sizeof(d), "{\"driver\":\"drv_life\",\"prop\":\"C16\",\"mode\":\"c16\",\"seed\":%llu,\"case\":%llu,\"variant\":\"%s\"}", (unsigned long long)vh_seed, (unsigned long long)idx, vh_variant);
@@ -308,7 +309,7 @@ static void c16_case(uint64_t idx)
             vh_make_def(&A, sizeof(A));
         }
         /* battery of later calls on the object: all must be safe and report failure */
-        snprintf(key, sizeof(key), "C16:%s:later-call-after-failed-init", nm); vh_set_crash_key(key);
+        snprintf(key, sizeof(key), "%s:%s:later-call-after-failed-init", c14 ? "C14" : "C16", nm); vh_set_crash_key(key);
         am_mark(0, 2);
         if (!par) {
             uint8_t out[40];
@@ -331,7 +332,9 @@ static void c16_case(uint64_t idx)
             vh_call_begin("parallel_encrypt(after cleanup)"); rets[nr++] = c->par_encrypt(out, z, z, c->bb * 2, &A); vh_call_end();
         }
         VH_COUNT("later_calls_checked", nr + 2);
+        if (c14) bad = NULL;     /* C14 judges only what it states: the later calls return 0 and touch nothing (crash containment) */
         for (i = 0; i < nr && !bad; ++i) if (rets[i] != 0) bad = "later-call-did-not-report-failure";
+        if (c14 && !bad) { VH_COUNT("failed_init_objects_checked", 1); continue; }
         /* allocator log: the failed init must not leave a live block; later calls must not touch the allocator */
         ev = am_events(); nev = am_nevents();
         for (e = 0; e < nev && !bad; ++e) {
@@ -351,7 +354,7 @@ static void c16_case(uint64_t idx)
         if (bad || vh_want_sample()) {
             snprintf(d, sizeof(d), "{\"init\":\"%s%s_init\",\"backend\":\"%s\",\"failed_request\":%ld,\"of\":%ld,\"prior_handle\":\"%s\",\"init_ret\":%d,\"later_rets\":[%d,%d,%d,%d,%d,%d],\"allocator_events\":%d}",
                      c->name, par ? "_parallel_ecb" : "_ctr", vh_backend_names[be], k, nreq, cname[cls], ret, rets[0], nr > 1 ? rets[1] : -1, nr > 2 ? rets[2] : -1, nr > 3 ? rets[3] : -1, nr > 4 ? rets[4] : -1, nr > 5 ? rets[5] : -1, nev);
-            if (bad) { snprintf(key, sizeof(key), "C16:%s:%s", nm, bad); viol(key, idx, d); }
+            if (bad) { snprintf(key, sizeof(key), "%s:%s:%s", c14 ? "C14" : "C16", nm, bad); viol(key, idx, d); }
             else vh_sample(d);
         }
         if (vh_distinct(vh_hash(nm, strlen(nm), (uint64_t)k))) VH_COUNT("distinct_fault_points", 1);
